@@ -770,8 +770,9 @@ func (c *Compiler) compileAssign(
 			c.emit(node, parser.OpSetFree, symbol.Index)
 		}
 	default:
-		panic(fmt.Errorf("invalid assignment variable scope: %s",
-			symbol.Scope))
+		// e.g. assignment to a builtin function name
+		return c.errorf(node, "invalid assignment variable scope: %s",
+			symbol.Scope)
 	}
 	return nil
 }
